@@ -12,8 +12,13 @@ import Gozod.Gen.LocaleTable
 namespace Gozod.Drv.C18
 open Gozod.Msg
 
+/-- `leaf@wrapper`; a two-level site `leaf@outer>inner` (thorough tier) is predicted from the entry of
+    `leaf@inner`: an outer container must not change which sources reach the leaf's issue. -/
 def findSite (id : String) : Option Site :=
-  Gozod.Gen.sites.find? (fun s => s.leaf ++ "@" ++ s.wrapper == id)
+  let id' := match id.splitOn "@" with
+    | [leaf, w] => leaf ++ "@" ++ ((w.splitOn ">").getLast?.getD w)
+    | _ => id
+  Gozod.Gen.sites.find? (fun s => s.leaf ++ "@" ++ s.wrapper == id')
 
 def setOf (s : String) : SrcSet := if s == "-" then SrcSet.empty else SrcSet.ofString s
 
